@@ -177,7 +177,16 @@ func cmpKey(a, b *model.Event, k sortKey) int {
 	switch ca {
 	case 0:
 		if k.Mode == "str" {
-			return 2
+			// str(): the values are ordered lexicographically as text. The text of an integer is its decimal
+			// form; how other numbers are rendered is not stated.
+			if va.K != model.KInt || vb.K != model.KInt {
+				return 2
+			}
+			c = strings.Compare(strconv.FormatInt(va.I, 10), strconv.FormatInt(vb.I, 10))
+			if k.Desc {
+				c = -c
+			}
+			return c
 		}
 		if va.K == model.KInt && vb.K == model.KInt {
 			c = cmpInt(va.I, vb.I)
